@@ -22,6 +22,11 @@ type seedCase struct {
 	M     text   `json:"mnemonic"`
 	P     text   `json:"passphrase"`
 	Shape string `json:"shape,omitempty"`
+	// PrimeM/PrimeP: a derivation made immediately before (result also checked): the pair that
+	// concatenates to the same bytes with the boundary elsewhere, (a+b, c) vs (a, b+c).
+	PrimeM text `json:"prime_mnemonic,omitempty"`
+	PrimeP text `json:"prime_passphrase,omitempty"`
+	Primed bool `json:"primed,omitempty"`
 }
 
 func short(s string) string {
@@ -37,6 +42,14 @@ var c04Check = register("C04", "c04.seed", func(c *seedCase) error {
 		harnessError("c04: case is not valid UTF-8")
 	}
 	sig := "C04 seed"
+	if c.Primed {
+		pm, pp := string(c.PrimeM), string(c.PrimeP)
+		got, p := implSeed(pm, pp)
+		if p != nil || !bytes.Equal(got, ref.Seed(pm, pp)) {
+			return failf(sig+" value", "MnemonicToSeed(%s, %s) = %x (panic=%v), BIP39 says %x", short(pm), short(pp), got, p, ref.Seed(pm, pp))
+		}
+		sig += " after-boundary-shifted-call"
+	}
 	s1, p := implSeed(m, pw)
 	if p != nil {
 		return failf(sig+" panic", "MnemonicToSeed(%s, %s) panicked: %v", short(m), short(pw), p)
@@ -123,7 +136,7 @@ func c04Record(c *seedCase) {
 
 // seedPair draws (mnemonic, passphrase).
 func seedPair(rt *rapid.T) (string, string, string) {
-	shape := rapid.SampledFrom([]string{"ustring", "ustring", "valid-mnemonic", "damaged-mnemonic", "long", "empty-m", "mark-first", "huge", "block-boundary", "low-runes"}).Draw(rt, "shape")
+	shape := rapid.SampledFrom([]string{"ustring", "ustring", "valid-mnemonic", "damaged-mnemonic", "long", "empty-m", "mark-first", "huge", "block-boundary", "low-runes", "boundary-shift"}).Draw(rt, "shape")
 	var m, p string
 	p = rapid.OneOf(gen.UString(6), rapid.Just(""), rapid.Just("TREZOR"), rapid.StringN(0, 20, -1)).Draw(rt, "p")
 	switch shape {
@@ -159,6 +172,10 @@ func seedPair(rt *rapid.T) (string, string, string) {
 		if rapid.Bool().Draw(rt, "pad-p") {
 			p = gen.PadToNFKDLen(p, rapid.SampledFrom([]int{119, 120, 121, 128}).Draw(rt, "p-bytes"))
 		}
+	case "boundary-shift":
+		// handled by the caller (needs two pairs); here: strings containing the salt tag itself
+		m = gen.UString(3).Draw(rt, "m") + rapid.SampledFrom([]string{"mnemonic", "mnemoni", "nemonic", ""}).Draw(rt, "tag") + gen.UString(2).Draw(rt, "m2")
+		p = rapid.SampledFrom([]string{"mnemonic", "c", ""}).Draw(rt, "ptag") + p
 	case "low-runes":
 		m = gen.LowString().Draw(rt, "m")
 		if rapid.Bool().Draw(rt, "low-p") {
@@ -200,6 +217,15 @@ func TestC04_Seed(t *testing.T) {
 	rapidCheck(t, func(rt *rapid.T) {
 		m, p, shape := seedPair(rt)
 		c := &seedCase{M: text(m), P: text(p), Shape: shape}
+		if shape == "boundary-shift" {
+			// (a, x+"mnemonic"+b) then (a+"mnemonic"+x, b): any key built by plain concatenation confuses them
+			a, x, b := gen.UString(3).Draw(rt, "a"), rapid.SampledFrom([]string{"", "x", "\u00e9"}).Draw(rt, "x"), rapid.SampledFrom([]string{"TREZOR", "", "p\u0301"}).Draw(rt, "b")
+			tag := rapid.SampledFrom([]string{"mnemonic", "mnemonic", "", "zz"}).Draw(rt, "tag")
+			c = &seedCase{Primed: true, PrimeM: text(a), PrimeP: text(x + tag + b), M: text(a + tag + x), P: text(b), Shape: shape}
+			if rapid.Bool().Draw(rt, "swap") {
+				c.PrimeM, c.PrimeP, c.M, c.P = c.M, c.P, c.PrimeM, c.PrimeP
+			}
+		}
 		c04Record(c)
 		cov.Class("shape=" + shape)
 		if k++; k%97 == 1 && len(m) < 300 {
